@@ -1,15 +1,15 @@
 CONSTANTS
-  MaxRoots = 2
+  MaxRoots = 3
   MaxViews = 1
   MaxElems = 2
   Depth = 4
   Flags = FALSE
-  Rich = FALSE
+  Rich = TRUE
 INIT Init
 NEXT Next
 VIEW HView
-ACTION_CONSTRAINT Emit
 INVARIANT TypeOK
 INVARIANT Acyclic
 INVARIANT FrozenStable
 INVARIANT FrozenClosed
+INVARIANT RangeSelfTest
